@@ -292,6 +292,38 @@ func (p *c13) Run(w *lib.Worker, idx int, r *lib.Rand) lib.Case {
 					got = want
 					return sut.Outcome{Valid: true}
 				}
+				// the same number in another legal JSON spelling (what a decoder with UseNumber hands over verbatim)
+				switch idx % 4 {
+				case 2:
+					if strings.Contains(txt, ".") {
+						txt += "0"
+					} else {
+						txt += ".0"
+					}
+				case 3:
+					if !strings.Contains(txt, ".") && strings.HasSuffix(txt, "0") && len(strings.TrimLeft(txt, "-")) > 1 {
+						z := len(txt) - len(strings.TrimRight(txt, "0"))
+						txt = fmt.Sprintf("%se%d", txt[:len(txt)-z], z)
+					} else if i := strings.Index(txt, "."); i >= 0 {
+						frac := len(txt) - i - 1
+						txt = fmt.Sprintf("%sE-%d", strings.TrimLeft(strings.Replace(txt, ".", "", 1), "+"), frac)
+						if strings.HasPrefix(txt, "-0") || strings.HasPrefix(txt, "0") {
+							// keep a legal JSON number: no leading zeros in the mantissa
+							neg := strings.HasPrefix(txt, "-")
+							m := strings.TrimLeft(strings.TrimPrefix(txt, "-"), "0")
+							if m == "" || m[0] == 'E' {
+								m = "0" + m
+							}
+							if neg {
+								m = "-" + m
+							}
+							txt = m
+						}
+					}
+				}
+				if back, ok := new(big.Rat).SetString(txt); !ok || back.Cmp(n.v) != 0 {
+					return sut.Outcome{Panic: "harness: spelling " + txt + " does not denote the value"}
+				}
 				data = json.Number(txt)
 				render += " json.Number(" + txt + ")"
 			}
